@@ -1948,6 +1948,12 @@ def oracle(ctx, kind, case, out):
         z0 = case[6]
         if 1000 not in res and dump != z0:
             fail("the zone changed although no process_message call returned True", sig="changed-without-done")
+        if kind == "init":
+            rdt, ser, udp = case[3], case[4], case[5]
+            refuse = (rdt == IXFR and ser is None) or (rdt == AXFR and udp) or rdt not in (AXFR, IXFR)
+            if refuse != (res == [32]):
+                fail("Inbound(...) must refuse exactly: IXFR without a serial, AXFR over UDP, any other rdtype (ValueError)",
+                     sig="init-arguments")
         return F
     if op == 6:
         prev = case[5]
